@@ -42,7 +42,7 @@ func TestWorker(t *testing.T) {
 	case "batch":
 		out = runBatch(spec, &j)
 	case "replay":
-		out = Exec(spec, sim.ReplayTape(j.Tape), j.Tier, true)
+		out = Exec(spec, sim.ReplayTapeCap(j.Tape, tapeCap(spec)), j.Tier, true)
 	case "shrink":
 		out = Shrink(spec, &j)
 	default:
